@@ -89,6 +89,41 @@ fn trunc(s: &str) -> String {
     }
 }
 
+fn check_invalid_text(rep: &mut Report, seed: u64, i: u64) {
+    let mut rng = Rng::derive("c19/invalid-text", seed, 0, i);
+    let n0 = rng.below(6) as usize;
+    let mut bytes: Vec<u8> = vcore::gen::gen_string_len(&mut rng, n0).into_bytes();
+    // make it invalid: truncated multi-byte character at the end, lone continuation byte,
+    // overlong / out-of-range lead bytes
+    match rng.below(6) {
+        0 => bytes.push(0xc3),
+        1 => bytes.extend_from_slice(&[0xe2, 0x82]),
+        2 => bytes.extend_from_slice(&[0xf0, 0x9f, 0x98]),
+        3 => { let k = rng.usize_below(bytes.len() + 1); bytes.insert(k, 0x80) }
+        4 => { let k = rng.usize_below(bytes.len() + 1); bytes.insert(k, 0xff) }
+        _ => bytes.extend_from_slice(&[0xc0, 0xaf]),
+    }
+    let bad = Item::Text { w: vcore::refcbor::min_width(bytes.len() as u64), v: bytes };
+    // alone (last thing in the buffer), with a sibling after it, as a map value, behind a tag
+    let it = match rng.below(6) {
+        0 => bad,
+        1 => Item::array(vec![Item::uint(1), bad]),
+        2 => Item::array(vec![bad, Item::uint(2)]),
+        3 => Item::map(vec![(Item::uint(0), bad)]),
+        4 => Item::tag(rng.below(40), bad),
+        _ => Item::array_indef(vec![Item::null(), bad]),
+    };
+    let enc = it.encode();
+    rep.seen(fnv64(&enc) ^ 0x5555);
+    if let Some(out) = check_total(rep, &enc, true) {
+        if !out.contains("!!!") {
+            fail(rep, "display|invalid-text-not-reported", format!("a complete text item with invalid UTF-8 is rendered as {:?} without an inline error", out), &enc);
+        } else {
+            rep.count("invalid UTF-8 text reported inline");
+        }
+    }
+}
+
 pub fn run(a: &Args, rep: &mut Report) {
     // exact rendering: exhaustive small trees and random trees
     let max_nodes = if a.thorough() { 4 } else { 3 };
@@ -153,6 +188,15 @@ pub fn run(a: &Args, rep: &mut Report) {
         check_total(rep, &m, false);
         if i & 0x3ff == 0 {
             mon::tick()
+        }
+    }
+    // "decoding problems are reported inline": a complete item whose text is not valid UTF-8 (also
+    // when the string ends in the middle of a multi-byte character, and when it is the last thing
+    // in the buffer) must show up as an inline `!!!` error, not as silence
+    let ninv: u64 = if a.thorough() { 400_000 } else { 40_000 };
+    for i in 0..ninv {
+        if a.mine(i) {
+            check_invalid_text(rep, a.seed, i);
         }
     }
     // deep nesting
